@@ -376,6 +376,9 @@ impl Prop for C19 {
     fn id(&self) -> &'static str {
         "C19"
     }
+    fn pristine_run(&self) -> bool {
+        false // every schedule / driver line owns its process and mode already
+    }
     fn rule(&self) -> String {
         "Generated schedules: up to 4 logical threads and a global sequence of up to 40 steps (thread, op) with op in {set_default(mode), default(), thread exit (joined; the same thread number then names a NEW thread), round, checked_round, div_rounded, mul_rounded, quantize, * with p+q > 18, /, checked_div, Display with precision, and operations that panic (division by zero, unrepresentable result) after which the thread must keep working}; in addition every thread carries a thread-local guard installed at thread start whose destructor reports default() / round / Display as seen while the thread exits; threads are real OS threads started lazily at their first step (so they start after others changed their mode) and driven in lock-step by the harness; every schedule is executed in a fresh child process (vcheck c19-exec), so no process-wide state survives from one schedule to the next; after the lock-step steps all threads of the schedule (if at least two) are released from a barrier and repeat 8 mode-sensitive operations 200 times truly concurrently, each under the mode its model says, and report every distinct output they saw - all must be the exact result under the thread's own mode. \
          Operands are exact ties / near ties so the 8 modes give different answers. Oracle: model map thread -> mode (RoundHalfEven at thread start); every result must equal the exact result under the issuing thread's model mode; default() must return it. \
